@@ -1,15 +1,17 @@
 """C02 -- gradient, Hessian and BHHH returned with a value are its true derivatives.
 
 Theorems (rocq/Properties/C02.v): the symbolic derivative D of Model/Deriv.v is correct on the smooth
-fragment (Coquelicot), the Hessian trees are second partial derivatives, entry i belongs to the i-th sorted
-name, packaging (tie A, Gen/Pack.v regenerated from function_output.py / calculator.py / idmanager.py /
-base_expressions.py / biogeme.py on every run).
+fragment (Coquelicot), its domain is open, the Hessian trees are the second partial derivatives and are
+symmetric, entry i belongs to the i-th sorted name, aggregation / BHHH / scaling, packaging (tie A, Gen/Pack.v
+regenerated from function_output.py / calculator.py / idmanager.py / base_expressions.py / biogeme.py on every run).
 Streams:
   deriv_engine  every entry of the per-observation value / gradient / Hessian returned by the engine vs the
                 proved enclosure of evalX (D b e) / evalX (D b' (D b e)) computed in Coq; BHHH, aggregation,
                 symmetry, the 2x2x2 modes, named outputs, renamed parameters, BIOGEME scaled / unscaled:
                 exact rational arithmetic on the doubles.
-  pack          the generated packaging functions evaluated in Coq on symbolic tokens vs the wrappers.
+                Known findings (engine, external): Hessian of x**2, gradient of a bioLinearUtility with a repeated
+                parameter -- attributed by re-running the engine on the rewritten formula (x*x, sum of products).
+  pack          the generated packaging functions evaluated in Coq on integer-tagged inputs vs the wrappers.
 """
 import json
 import math
@@ -568,7 +570,15 @@ def stream_deriv(ctx, only=None):
             blocks.append((defs, items))
             binfo.append((ci, c, names, meta, 'refused', exc_))
             continue
-        full = check_packaging(ctx, st, c, r, names)
+        try:
+            full = check_packaging(ctx, st, c, r, names)
+        except (TypeError, KeyError, IndexError, AttributeError, ValueError) as ex:
+            # outputs of an unexpected shape (None where an array was asked, missing names, ...): a failure of the packaging, with its witness
+            st.disagree({'tree': plain}, 'outputs of the documented shape', f'{type(ex).__name__}: {ex}')
+            ctx.violation('C02/shape/unexpected', 'the outputs do not have the documented structure (arrays per requested quantity, one entry per free '
+                          'parameter name)', witness(c, names), 'arrays / dicts indexed by the sorted free parameter names',
+                          {'error': f'{type(ex).__name__}: {ex}', 'outputs': {k: v for k, v in r.items() if k not in ('tree_back',)}}, HOW)
+            continue
         if full is None:
             continue
         defs, items, meta = coq_case_text(ci, c, names, full, range(len(c['rows'])))
